@@ -1148,6 +1148,23 @@ def c16_broadcast_shape(F, rep):
         rep.check(ok, "C16-R10", "broadcast:source-shape" if ok else "broadcast:shape-%s" % re.sub(r"\W+", "-", ",".join(a[2:]))[:30],
                   "the broadcast result is reassembled with (%s) from `%s`: expected (shape[0], shape[1]) of source.shape() - a non-square matrix comes back transposed or reshaped" % (
                       ", ".join(a[2:]), shape_src), "try_broadcast_user_function (mech_interpreter.lib)")
+    bt = [it for it in F.syn("mech_interpreter.lib") if it["k"] == "fn" and it["name"] == "build_typed_matrix_from_values" and it.get("body")]
+    if rep.check(len(bt) == 1, "C16-R10", "anchor:build_typed_matrix_from_values", "build_typed_matrix_from_values not found"):
+        params = [p_[0][1] for p_ in bt[0]["sig"]["inputs"] if is_node(p_[0]) and p_[0][0] == "pident"]
+        n_c = 0
+        if rep.check(len(params) == 4, "C16-R10", "anchor:build-signature", "build_typed_matrix_from_values no longer takes (kind, outputs, rows, cols): %s" % params):
+            rname, cname = params[2], params[3]
+            for c in list(find(bt[0]["body"], "call")) + list(find(bt[0]["body"], "mcall")):
+                args = c[2] if c[0] == "call" else c[4]
+                names = [render(a).replace(" ", "") for a in args]
+                if rname in names and cname in names:
+                    n_c += 1
+                    okc = names.index(rname) < names.index(cname)
+                    fn_ = (path_of(c[1]) or "?") if c[0] == "call" else c[2]
+                    rep.check(okc, "C16-R10", "reassembly:%s:rows-then-cols" % fn_.split("::")[-1] if okc else "reassembly:%s:cols-before-rows" % fn_.split("::")[-1],
+                              "build_typed_matrix_from_values calls %s(%s): the constructor takes (rows, cols) - a non-square broadcast result of this kind comes back with its dimensions exchanged" % (fn_, ", ".join(names)),
+                              "build_typed_matrix_from_values (mech_interpreter.lib)")
+        rep.floor("C16-R10", "matrix constructions in build_typed_matrix_from_values", n_c, 2)
     ml = [it for it in F.syn("mech_interpreter.lib") if it["k"] == "fn" and it["name"] == "matrix_like_values" and it.get("body")]
     if rep.check(len(ml) == 1, "C16-R10", "anchor:matrix_like_values", "matrix_like_values not found"):
         n_arm = n_ok = 0
